@@ -317,8 +317,13 @@ fn fut(r: &mut Rng) -> Scenario {
             if r.chance(1, 3) {
                 ops.push(Op::IntoSingle(0));
             }
-            for _ in 0..total {
+            // a stream may leave early while senders are still (possibly parked) sending, never the last one
+            let leaves = r.chance(1, 3) && sl != slots[0];
+            for _ in 0..(if leaves { 1 + r.below(2) } else { total }) {
                 ops.push(Op::StreamNext(0));
+            }
+            if leaves {
+                ops.push(Op::Drop(0));
             }
             main.push(Op::Spawn(vec![sl], ops));
         }
